@@ -191,6 +191,10 @@ pub fn awkward_utf8(rng: &mut Rng, n: usize) -> Vec<u8> {
 }
 
 fn num(rng: &mut Rng, bits: u32, v: ValRegime) -> u64 {
+    // dictionary mode: the next constant of the code under test
+    if let Some(x) = crate::dict::next_int(rng, bits) {
+        return x;
+    }
     match v {
         ValRegime::Uniform => {
             if bits >= 64 {
@@ -200,6 +204,16 @@ fn num(rng: &mut Rng, bits: u32, v: ValRegime) -> u64 {
             }
         }
         ValRegime::Extremes => rng.extreme(bits),
+    }
+}
+
+/// In dictionary mode, half of the time: a string constant of the code under
+/// test (non-empty, at most `max` octets).
+fn dict_text(rng: &mut Rng, max: usize, text: bool) -> Option<Vec<u8>> {
+    if crate::dict::active() && rng.bool() {
+        crate::dict::pick_str(rng, max, text).filter(|t| !t.is_empty())
+    } else {
+        None
     }
 }
 
@@ -217,7 +231,10 @@ pub fn gen_avp_of(rng: &mut Rng, sw: &Swarm, attr: u16) -> SpecAvp {
                 let et = rng.range(0, MAX_ERROR_TYPE as u64) as u16;
                 let msg = if rng.bool() {
                     let n = var_len(rng, sw.size, MAX_PAYLOAD - 4);
-                    Some(utf8_of_len(rng, n, sw.strings))
+                    Some(match dict_text(rng, MAX_PAYLOAD - 4, true) {
+                        Some(t) => t,
+                        None => utf8_of_len(rng, n, sw.strings),
+                    })
                 } else {
                     None
                 };
@@ -242,11 +259,17 @@ pub fn gen_avp_of(rng: &mut Rng, sw: &Swarm, attr: u16) -> SpecAvp {
         Fmt::U32 => Val::U32(num(rng, 32, v) as u32),
         Fmt::Bytes => {
             let n = var_len(rng, sw.size, MAX_PAYLOAD);
-            Val::Bytes(opaque_bytes(rng, n))
+            match dict_text(rng, MAX_PAYLOAD, false) {
+                Some(t) => Val::Bytes(t),
+                None => Val::Bytes(opaque_bytes(rng, n)),
+            }
         }
         Fmt::Str => {
             let n = var_len(rng, sw.size, MAX_PAYLOAD);
-            Val::Str(utf8_of_len(rng, n, sw.strings))
+            match dict_text(rng, MAX_PAYLOAD, true) {
+                Some(t) => Val::Str(t),
+                None => Val::Str(utf8_of_len(rng, n, sw.strings)),
+            }
         }
         Fmt::Q931 => {
             let advisory = if rng.bool() {
@@ -330,6 +353,12 @@ pub fn encoded_len(a: &SpecAvp) -> usize {
 /// A control message in the encodable domain (first AVP, if any, is a
 /// Message Type; total at most `limit` octets).
 pub fn gen_control(rng: &mut Rng, sw: &Swarm, limit: usize) -> SpecMessage {
+    // one message in fourteen is filled from the constants of the code
+    // under test (successive fields from successive constants)
+    crate::dict::maybe_dict_mode(rng, 14, |rng| gen_control_inner(rng, sw, limit))
+}
+
+fn gen_control_inner(rng: &mut Rng, sw: &Swarm, limit: usize) -> SpecMessage {
     if limit >= 300 && rng.chance(1, 10) {
         let m = gen_realistic(rng);
         if spec_encode(&m).len() <= limit {
@@ -456,7 +485,13 @@ pub fn gen_control(rng: &mut Rng, sw: &Swarm, limit: usize) -> SpecMessage {
         None => (num(rng, 16, sw.values) as u16, num(rng, 16, sw.values) as u16),
     };
     let ns = num(rng, 16, sw.values) as u16;
-    let nr = if rng.chance(1, 6) { ns } else { num(rng, 16, sw.values) as u16 };
+    let nr = match rng.below(12) {
+        0 | 1 => ns,
+        2 => ns.swap_bytes(),
+        3 => ns.wrapping_add(1),
+        4 => !ns,
+        _ => num(rng, 16, sw.values) as u16,
+    };
     SpecMessage::Control {
         length,
         tunnel_id,
@@ -470,6 +505,10 @@ pub fn gen_control(rng: &mut Rng, sw: &Swarm, limit: usize) -> SpecMessage {
 /// A data message in C04's domain: non-empty payload, `length` absent or
 /// the true total, `offset` absent or `n <= |data| - 1`.
 pub fn gen_data(rng: &mut Rng, sw: &Swarm) -> SpecMessage {
+    crate::dict::maybe_dict_mode(rng, 20, |rng| gen_data_inner(rng, sw))
+}
+
+fn gen_data_inner(rng: &mut Rng, sw: &Swarm) -> SpecMessage {
     let has_l = rng.bool();
     let has_s = rng.bool();
     let has_o = rng.bool();
@@ -985,6 +1024,10 @@ pub fn gen_realistic(rng: &mut Rng) -> SpecMessage {
 }
 
 pub fn gen_realistic_of(rng: &mut Rng, kind: Option<u16>) -> SpecMessage {
+    crate::dict::maybe_dict_mode(rng, 6, |rng| gen_realistic_inner(rng, kind))
+}
+
+fn gen_realistic_inner(rng: &mut Rng, kind: Option<u16>) -> SpecMessage {
     let sw = Swarm {
         kinds: ALL_ATTRS.to_vec(),
         size: SizeRegime::Typical,
